@@ -210,6 +210,8 @@ def impl(case):
                         elif d == "close_release":
                             resp.close()
                             resp.release_conn()
+                        elif d == "none":
+                            pass          # the body was preloaded: the caller has nothing left to do
                     except KeyboardInterrupt:
                         pass
                     except Exception as e:
@@ -273,6 +275,11 @@ def oracle(case, obs):
 def signature(case, obs, msg):
     m = msg or ""
     sig = {"msg": m[:45]}
+    mm = __import__("re").match(r"after request #(\d+) ", m)
+    if mm and ("slots instead of" in m or "are open but not idle in the pool" in m):
+        rq = case["reqs"][int(mm.group(1))]
+        if rq.get("release") is False and rq["preload"] and rq["disposal"] == "none":
+            return {"kind": "preloaded-with-release-conn-false-never-released"}
     if "disposed of by close() alone" in m:
         sig["kind"] = "close-only-disposal"
     return sig
@@ -364,6 +371,13 @@ def cases(rng, tier):
         for keep in (True, False):
             for body in ("ok", "short", "interrupt"):
                 firsts.append({"connect": "ok", "send": "ok", "recv": ["resp", status, 0 if status == 503 else None, keep, body]})
+    # release_conn=False with the body preloaded: "will release if you read the entire contents of the response such as when
+    # preload_content=True" (urlopen's docstring) - the caller does nothing more
+    for maxsize, block in ((1, True), (2, False)):
+        out.append({"maxsize": maxsize, "block": block,
+                    "reqs": [{"method": "GET", "preload": True, "release": False, "retries": ["int", 0], "disposal": "none", "redirect": False},
+                             {"method": "GET", "preload": True, "retries": ["int", 0], "disposal": "read_all", "redirect": False}],
+                    "script": [ok] * 4})
     # interrupted while waiting for a free slot: nothing was taken, nothing may be given back
     holder = {"method": "GET", "preload": False, "retries": ["int", 0], "disposal": "hold", "redirect": False}
     waiter = {"method": "GET", "preload": True, "retries": ["int", 0], "disposal": "read_all", "redirect": False, "wait": "interrupt"}
